@@ -31,6 +31,8 @@ type HandlerSpec struct {
 	Calls     []string `json:"calls,omitempty"`
 	New       bool     `json:"new,omitempty"`
 	Auths     []string `json:"auths,omitempty"`
+	// Mounted registers the handler on a sub-mux mounted on the pattern's first (literal) token.
+	Mounted   bool     `json:"mounted,omitempty"`
 	ValueMode string   `json:"valueMode,omitempty"` // behaviour of the get handler when called for Value(): ok, error, panic, none, qmodel, collection, ... (see Build)
 	Group     string   `json:"group,omitempty"`
 	Parallel  bool     `json:"parallel,omitempty"`
@@ -166,6 +168,15 @@ func Marker(hi int, kind, method string) string {
 // Build registers the case's handlers on a new service.
 func Build(c *Case, rs *runState) *res.Service {
 	s := res.NewService(c.Name)
+	// sub-muxes are mounted first: mounting on a token that already carries patterns is refused
+	mounts := map[string]*res.Mux{}
+	for _, hs := range c.Handlers {
+		if toks := refmux.Tokens(hs.Pattern); hs.Mounted && len(toks) >= 2 && refmux.Kind(toks[0]) == refmux.Lit && mounts[toks[0]] == nil {
+			sub := res.NewMux("")
+			s.Mount(toks[0], sub)
+			mounts[toks[0]] = sub
+		}
+	}
 	s.SetWorkerCount(c.Workers) // 0 (or less) selects the default count
 	if c.NoQueue {
 		s.SetQueueGroup("") // plain subscriptions: nothing de-duplicates overlapping ones
@@ -275,6 +286,12 @@ func Build(c *Case, rs *runState) *res.Service {
 		}
 		if hs.Parallel {
 			opts = append(opts, res.Parallel(true))
+		}
+		if toks := refmux.Tokens(hs.Pattern); hs.Mounted && len(toks) >= 2 && refmux.Kind(toks[0]) == refmux.Lit {
+			// registered on a sub-mux mounted on the pattern's first token (one per token)
+			sub := mounts[toks[0]]
+			sub.Handle(strings.Join(toks[1:], "."), opts...)
+			continue
 		}
 		s.Handle(hs.Pattern, opts...)
 	}
@@ -634,6 +651,7 @@ func GenHandlers() *rapid.Generator[[]HandlerSpec] {
 			}
 			seen[refmux.StructKey(p)] = true
 			h := HandlerSpec{Pattern: p}
+			h.Mounted = rapid.IntRange(0, 3).Draw(t, "mounted") == 0
 			h.Type = rapid.SampledFrom([]string{"", "model", "collection"}).Draw(t, "type")
 			h.Access = rapid.IntRange(0, 2).Draw(t, "access") > 0
 			h.Get = rapid.IntRange(0, 3).Draw(t, "get") > 0
